@@ -63,6 +63,16 @@ CLAIMED = {
         technique='Coq proof (verified regex first-character analysis with reflective side conditions; bounded kernel sweep guarded by an independent predicate) '
                   '+ extracted-model correspondence + oracle on the implementation',
         design='5/C14'),
+    'C03': dict(
+        text='Kernel-checked on a finite family stated in the theorem (314 one-block trees with containers nested two deep x 48 spellings, 4356 two-block trees x 6 '
+             'spellings; quotes, tight bullet lists, fences, headings, breaks, paragraphs): the pipeline model renders the spelled text to exactly the HTML '
+             'written from the tree, tree grammar/speller/HTML writer being a Coq specification that does not use the parser model. The property\'s full grammar '
+             '(all inline constructs, ordered and loose lists, tables, HTML blocks, link definitions, lazy lines, indents, depth 4) is decided on the implementation '
+             'by a tree-first generator with an independent HTML writer and CommonMark\'s normalisation; model tied to the implementation by X-doc on the generated texts.',
+        note='PARTIAL (bounded in the kernel, sampled beyond). Trusted: Coq kernel incl. vm_compute, extraction, translators, pipeline model (correspondence-checked), '
+             'harness/treegen.py and htmlnorm.py (the oracle). Three genuine defects repaired (fix: 3e6741d, 952f88d, 8741346); two recorded findings.',
+        technique='bounded kernel sweep against a Coq specification of spelling + extracted-model correspondence + generator oracle on the implementation',
+        design='5/C03'),
     'C17': dict(
         text='Theorems over ALL token trees about a Gallina model of LaTeXRenderer: template braces and \\begin/\\end pairs properly nested, every text '
              'item a sequence of ordinary characters and escape sequences (declarative predicate Esc), every \\href/\\url argument safe, \\verb delimiter '
